@@ -85,4 +85,76 @@ def check(ctx: Ctx) -> str:
     ctx.check("namespace = {'environment': environment, '__file__': code.co_filename}" in s and "exec(code, namespace)" in s, "from_code:namespace", "environment:Template.from_code", "execution namespace", "normally compiled code must be executed with environment and __file__ in its namespace", fc.loc())
     fm = repo.func("environment:Template.from_module_dict")
     ctx.check("cls._from_namespace(environment, module_dict, globals)" in ast.unparse(fm.node), "from_module_dict", "environment:Template.from_module_dict", "same constructor", "precompiled modules must go through the same _from_namespace", fm.loc())
+
+    ctx.rule("R4", "namespace ownership: _from_namespace writes the loading environment into the namespace it is given, so every namespace handed to it is fresh per load - a dict literal (from_code) or the dict of a module imported for this load and removed from sys.modules; a lookup of an already loaded module under the name the import system binds it to would share one namespace between environments")
+    _namespace_freshness(ctx, repo, ld)
     return __doc__ or ""
+
+
+def _namespace_freshness(ctx: Ctx, repo, ld) -> None:
+    """The module namespace is per Template object: source loading executes the code in a
+    new dict for every load, so module loading must not hand the same module dict to
+    templates of two environments (the ``environment`` slot is overwritten on every load)."""
+    fn = ld.node
+    # the value that reaches from_module_dict
+    calls = [c for c in astq.calls(fn) if astq.callee(c).endswith("from_module_dict")]
+    ctx.need(len(calls) == 1 and len(calls[0].args) >= 2, "from_module_dict call not found in ModuleLoader.load")
+    ns = calls[0].args[1]
+    ctx.need(isinstance(ns, ast.Attribute) and ns.attr == "__dict__" and isinstance(ns.value, ast.Name), f"namespace argument is {ast.unparse(ns)}, expected <module>.__dict__")
+    var = ns.value.id
+    defs = [a for a in ast.walk(fn) if isinstance(a, ast.Assign) and any(isinstance(t_, ast.Name) and t_.id == var for t_ in a.targets)]
+    ctx.floor("definitions of the loaded module variable", len(defs), 1)
+
+    def resolve(e: ast.AST) -> ast.AST:
+        seen = 0
+        while isinstance(e, ast.Name) and seen < 5:
+            src = [a for a in ast.walk(fn) if isinstance(a, ast.Assign) and len(a.targets) == 1 and isinstance(a.targets[0], ast.Name) and a.targets[0].id == e.id]
+            if len(src) != 1:
+                break
+            e = src[0].value
+            seen += 1
+        return e
+
+    # the attribute name under which the import system binds the submodule on the package:
+    # the last dotted component of the imported name
+    imports = [c for c in astq.calls(fn) if astq.callee(c) in ("__import__", "importlib.import_module", "import_module")]
+    child: str | None = None
+    for c in imports:
+        nm = resolve(c.args[0])
+        if isinstance(nm, ast.JoinedStr) and nm.values:
+            last = nm.values[-1]
+            if isinstance(last, ast.FormattedValue):
+                child = ast.unparse(resolve(last.value))
+            elif isinstance(last, ast.Constant) and isinstance(last.value, str):
+                child = repr(last.value.rsplit(".", 1)[-1])
+    # nobody else stores attributes on the package module
+    writers = []
+    for f2 in astq.all_funcdefs(repo.module("loaders").tree):
+        for n_ in ast.walk(f2):
+            if isinstance(n_, ast.Call) and astq.callee(n_) == "setattr" and n_.args and ast.unparse(n_.args[0]) == "self.module":
+                writers.append(astq.qualname(f2))
+    ctx.check(not writers, "ns:no-setattr", "loaders:ModuleLoader", f"setattr(self.module, ...) in {writers}", "storing loaded modules on the package module creates a namespace shared between loads", ld.loc())
+    for a in defs:
+        v = a.value
+        what = ast.unparse(v)
+        if isinstance(v, ast.Call) and astq.callee(v) in ("__import__", "importlib.import_module", "import_module"):
+            # fresh only if the sys.modules entry is dropped again (otherwise the next load
+            # gets the cached module object)
+            imported = ast.unparse(v.args[0])
+            pops = [c for c in astq.calls(fn) if astq.callee(c) in ("sys.modules.pop",) and c.args and ast.unparse(c.args[0]) == imported]
+            dels = [d for d in ast.walk(fn) if isinstance(d, ast.Delete) and any(ast.unparse(t_) == f"sys.modules[{imported}]" for t_ in d.targets)]
+            ctx.check(bool(pops or dels), "ns:import-fresh", "loaders:ModuleLoader.load", f"{what} without removing sys.modules[{imported}]",
+                      f"the module imported by {what} stays in sys.modules: the next load (possibly for another environment) receives the same module object, and Template._from_namespace overwrites its `environment` - templates of the first environment then render with the second environment's filters, tests and undefined type, unlike source loading", ld.loc(v))
+        elif isinstance(v, ast.Call) and astq.callee(v) == "getattr" and len(v.args) >= 2 and ast.unparse(v.args[0]) == "self.module":
+            looked = ast.unparse(resolve(v.args[1]))
+            shared = child is not None and looked == child
+            ctx.check(not shared, "ns:lookup", "loaders:ModuleLoader.load", f"{what} finds the module bound by a previous import",
+                      f"{what} looks the module up under {looked}, the attribute name the import system binds a loaded submodule to: a second load (from another environment sharing this loader) reuses the same module namespace, and Template._from_namespace overwrites its `environment` slot - the first environment's template now renders with the other environment's filters, tests and undefined type, which loading from source never does", ld.loc(v),
+                      detail={"lookup": looked, "import_binds": child})
+        elif isinstance(v, ast.Constant) and v.value is None:
+            ctx.ok("ns:none", trivial=True)
+        else:
+            ctx.check(False, "ns:other", "loaders:ModuleLoader.load", f"module namespace from {what}", f"the module whose dict becomes the template namespace comes from {what}: not recognised as fresh per load", ld.loc(v))
+    fc = repo.func("environment:Template.from_code")
+    nsdefs = [a for a in ast.walk(fc.node) if isinstance(a, ast.Assign) and any(isinstance(t_, ast.Name) and t_.id == "namespace" for t_ in a.targets)]
+    ctx.check(len(nsdefs) == 1 and isinstance(nsdefs[0].value, ast.Dict), "ns:from_code", "environment:Template.from_code", "namespace is a new dict literal", "from_code must execute the code in a new dict per load", fc.loc())
